@@ -25,7 +25,12 @@ import (
 
 // GetCompatRequest only support basic function of Request, not for all.
 func GetCompatRequest(req *protocol.Request) (*http.Request, error) {
-	r, err := http.NewRequest(string(req.Method()), req.URI().String(), bytes.NewReader(req.Body()))
+	body, err := req.BodyE()
+	if err != nil {
+		// a body (stream) that cannot be read must not look like an empty body
+		return nil, err
+	}
+	r, err := http.NewRequest(string(req.Method()), req.URI().String(), bytes.NewReader(body))
 	if err != nil {
 		return r, err
 	}
